@@ -77,6 +77,10 @@ claim("C17", "value provenance of the PeerName field of every catalog request is
       "Decides C17.1 (5 deregistrations take PeerName from the handler's peer parameter; 3 registrations are built from the snapshot that stamps node, service and check), C17.2 (insertions into the exported sets only below a consumer match), C17.3 (unexported services are pruned from the stored list), C17.4 (a stored instance is deregistered unless the snapshot holds it on the same node — the seeded flat-map class). Exact reconciliation for all prior-state/snapshot pairs is not decided.",
       "DESIGN.md section 3 C17")
 
+claim("C14", "taint analysis from identity fields to the SPIFFE principal regex with regexp.QuoteMeta as the only sanitiser; must-flow ordering of sort / de-duplicate / convert; structural rules on the precedence-removal passes (no truncation, removal only under action == default)",
+      "Decides three necessary clauses only: C14.1 (every component of the two SPIFFE principal patterns is constant or escaped — two known findings for the unescaped trust-domain host, two reviewed exceptions for partitions), C14.2 (sort by precedence, then de-duplicate by source, then convert, then remove precedence), C14.3 (precedence removal never shortens its list and drops only default-action elements — the seeded truncation class). The semantic equivalence of the generated RBAC algebra with the intention decision for all identities and requests is NOT decided by this family.",
+      "DESIGN.md section 3 C14")
+
 NA_REASON = {}
 
 checks = []
